@@ -559,15 +559,18 @@ theorem good_rule_text (s : Sheet) (h : AllGoodNs s) (n : NsRule) (hn : Rule.ns 
 
 /-! ## the findings of known/C15.json on the model (each is a closed computation, checked by the kernel) -/
 
-/-- C15-insert-before-same-prefix: the call is rejected, yet the sheet has changed; the mapping now binds `p`
-to `u2` and the URI `u1`, still used by `p|a`, has no prefix (`|a` is written) -/
+/-- C15-insert-before-same-prefix (as it is after fix 3ec898a, which takes the new rule out again): in
+`@namespace p "u1"; @namespace q "u2"; p|a {…} q|b {…}` the call `add(CSSNamespaceRule(prefix='q',
+namespaceURI='u1'))` is rejected — but the clean-up had already deleted `@namespace p "u1"` (it was no longer
+the last declaration of `u1`) before it failed on the new rule, so `u1`, still used by `p|a`, is left without
+declaration (`|a` is written) -/
 theorem insert_before_same_prefix_breaks :
-    (step W.base (.insNs W.p W.u2 (some 0) false)).2 = .err .noModificationAllowedErr ∧
-    (step W.base (.insNs W.p W.u2 (some 0) false)).1 ≠ W.base ∧
-    view (step W.base (.insNs W.p W.u2 (some 0) false)).1 = [(W.p, W.u2)] ∧
-    usedUris (step W.base (.insNs W.p W.u2 (some 0) false)).1 = [W.u1] ∧
-    serItem (view (step W.base (.insNs W.p W.u2 (some 0) false)).1) (.q .typeSel (.uri W.u1) W.a) = bar ++ W.a := by
-  decide
+    Good W.two ∧
+    (step W.two (.insNs W.q W.u1 none true)).2 = .err .noModificationAllowedErr ∧
+    nsPairs (step W.two (.insNs W.q W.u1 none true)).1 = [(W.q, W.u2)] ∧
+    usedUris (step W.two (.insNs W.q W.u1 none true)).1 = [W.u1, W.u2] ∧
+    serItem (view (step W.two (.insNs W.q W.u1 none true)).1) (.q .typeSel (.uri W.u1) W.a) = bar ++ W.a := by
+  refine ⟨⟨by decide, by decide, by decide, by decide⟩, by decide, by decide, by decide, by decide⟩
 
 /-- C15-prefix-setter-collision: `rule.prefix = 'q'` on the rule of `u1` while `q` is bound to `u2` -/
 theorem prefix_setter_collision_breaks :
